@@ -879,6 +879,22 @@ fn partition(
     let missing_count = min(to_drop.len(), n.saturating_sub(to_retain.len()));
     to_retain.extend(to_drop.drain(0..missing_count));
 
+    // Grouping by isolated roots takes precedence over grouping by file identifiers, so a path
+    // to be dropped can be the very same file as a retained path (a hard link, or the target of
+    // a retained symbolic link). Dropping it would gain nothing and could destroy the only copy
+    // of the data, so such sub-groups are retained as well.
+    if !config.match_links {
+        let retained_ids: std::collections::HashSet<FileId> = to_retain
+            .iter()
+            .flat_map(|g| g.files.iter().map(FileId::of))
+            .collect();
+        let (same_file, other): (Vec<_>, Vec<_>) = to_drop
+            .into_iter()
+            .partition(|g| g.files.iter().any(|f| retained_ids.contains(&FileId::of(f))));
+        to_retain.extend(same_file);
+        to_drop = other;
+    }
+
     assert!(to_retain.len() >= n || to_drop.is_empty());
     Ok(PartitionedFileGroup {
         to_keep: to_retain.into_iter().flat_map(|g| g.files).collect(),
